@@ -2,10 +2,12 @@
 import decimal
 import json
 import math
+import os
 import re
 import struct
 
 from harness.vlib import gallina as G
+from harness.vlib import paths
 
 ID = "C03"
 TITLE = "Readable printing round-trips through the reader"
@@ -18,9 +20,14 @@ TAGGED = True
 SHARD = 800
 NWORKERS = 3
 TABLE_DEPS = ["pr_str_escapes", "pr_delims", "pr_fstrings", "pr_special_floats", "pr_separators",
-              "pr_lrepr_types", "pr_print_defaults", "rd_str_escapes", "rd_bytes_escapes", "rd_numeric_constants",
+              "pr_lrepr_types", "pr_print_defaults", "pr_trunc_guards", "rd_str_escapes", "rd_bytes_escapes", "rd_numeric_constants",
               "rd_dispatch", "rd_macro_dispatch", "rd_ns_term_exempt", "rd_unicode_lens", "rd_uc_space"]
 EXHAUSTIVE = {"quick": False, "thorough": False}
+# Sensitivity runs: VERIF_C03_SRC=<copy of /repo/src> makes the implementation workers import basilisp from that
+# copy (the native overlay, the translator and the Coq side keep looking at /repo).
+_SRC = os.environ.get("VERIF_C03_SRC")
+if _SRC:
+    WORKER_ENV = {"PYTHONPATH": _SRC + os.pathsep + paths.VERIF}
 
 # Finding signatures: the defect tag is computed in Coq (Guard.tag_of) from the executable guards
 # of the partial theorems; the verdict logic additionally requires implementation = model.
@@ -48,6 +55,18 @@ RULE = ("One case = (value, print settings, path): the value is built in the wor
         "*print-dup*); imaginary numbers; keywords/symbols over a pool of names (readable and unreadable ones) x "
         "namespaces; uuids, instants, regex patterns, byte strings; random nested lists/vectors/sets/maps/queues/#py "
         "collections with metadata, under all 8 combinations of *print-dup* *print-meta* *print-namespace-maps*.  "
+        "*print-length* / *print-level*: nil everywhere above; with *print-dup* true (which claims readability "
+        "whatever the limits are) all 15 non-nil combinations of length in {nil,0,1,2} x level in {nil,0,1,2}, "
+        "passed as print_length / print_level to obj.lrepr and bound around pr-str, over (a) towers: each of the 9 "
+        "collection kinds (list vector set queue map, #py list tuple set dict) nested 3 deep (thorough: 4) in itself "
+        "(a #py set holds #py tuples), 4 elements per level, metadata at every level that can carry it, every "
+        "combination, both paths for the 6 combinations with one limit (thorough: for all); (b) every ordered pair of "
+        "kinds (outer kind containing the inner kind containing a vector, 4 elements per level, namespaced and plain "
+        "map keys) plus collection-valued map keys, a symbol with deep metadata and a set of maps/sets/queues, 2 limit "
+        "combinations per value (thorough: all 15); (c) random nested values with random limits: the text must be the "
+        "text the model prints with both limits nil and must read back to the value.  With *print-dup* false and "
+        "non-nil limits (no claim of readability) 45 tower cases (thorough: 135) are printed as well and the "
+        "abbreviated text (... and #) is compared with the model's.  "
         "Non-trivial = anything but nil/empty string; distinct = distinct case JSON.")
 TRUSTED = [
     "CPython repr(float)/float(str) enter the theorems as hypotheses H_float_repr_inverse (py_float t = Some t on "
@@ -62,11 +81,14 @@ TRUSTED = [
     "table by C03_table_whitespace) and the ASCII digits",
     "the reader is modelled on the printer's output language only (error class 7 = outside the model)",
     "sets and maps are lists in the order the implementation walks them (the worker reports that order)",
-    "harness/tr/tr_printer.py and harness/tr/tr_reader.py (ast-based table extraction)",
+    "harness/tr/tr_printer.py and harness/tr/tr_reader.py (ast-based table extraction; pr_trunc_guards reads "
+    "whether the four truncation tests of seq_lrepr / map_lrepr start with `not print_dup and`, refuses any other "
+    "shape and any other user of the two truncation markers)",
 ]
 ASSUMPTIONS = [
-    "*print-length* and *print-level* are nil (any other setting prints ... or # and does not claim readability); "
-    "*print-readably* is true",
+    "*print-length* and *print-level* are nil, or *print-dup* is true (with *print-dup* false any other setting "
+    "prints ... or # and does not claim readability); the limits are nil or non-negative integers (booleans, "
+    "which Python counts as int, and negative lengths are outside); *print-readably* is true",
     "values handed to the real code have pairwise distinct set members / map keys under Python equality",
     "metadata is compared modulo the four location keys the reader attaches; empty metadata = no metadata",
     "the reader's duplicate-key / duplicate-member detection is not modelled (the printer never emits duplicates)",
@@ -307,8 +329,11 @@ def gen_value(rng, depth, hashable, pc, meta_ok=True):
     return ["q", k, [gen_value(rng, depth - 1, hashable, pc, meta_ok) for _ in range(n)], meta]
 
 
-def case(v, pc=PC0, via=0):
-    return {"v": v, "pc": list(pc), "via": via}
+def case(v, pc=PC0, via=0, lim=None):
+    c = {"v": v, "pc": list(pc), "via": via}
+    if lim is not None and list(lim) != [None, None]:
+        c["lim"] = list(lim)             # [*print-length*, *print-level*]; absent = both nil
+    return c
 
 
 def both(v, pc=PC0):
@@ -371,6 +396,77 @@ def fixed_cases(thorough=False):
     return out
 
 
+# ---- *print-length* / *print-level* under *print-dup* -----------------------------------------
+LIMS = [[a, b] for a in (None, 0, 1, 2) for b in (None, 0, 1, 2) if not (a is None and b is None)]
+ALL_KINDS = ["l", "v", "s", "q", "m", "pl", "pt", "ps", "pd"]
+UNHASHABLE = {"pl", "ps", "pd"}
+M1 = [[["k", None, "a"], ["i", "1"]]]
+M2 = [[["k", "x", "tag"], ["q", "v", [["i", "1"], ["i", "2"], ["i", "3"]], None]], [["k", "x", "doc"], ["s", [100]]],
+      [["k", "x", "c"], ["nil"]]]
+
+
+def coll(kind, elems, meta=None, ns=None, keys=None):
+    """A collection of `kind` holding `elems` (map kinds: as the values of keys :k0 :k1 ..., or of `keys`)."""
+    if kind in ("m", "pd"):
+        ks = keys or [["k", ns, f"k{i}"] for i in range(len(elems))]
+        return ["m", kind == "pd", [[k, e] for k, e in zip(ks, elems)], meta if kind == "m" else None]
+    return ["q", kind, list(elems), meta if kind in ("l", "v", "s", "q") else None]
+
+
+def tower(kind, depth=4, meta=M1):
+    """`kind` nested in itself `depth` deep, 4 elements per level (longer than every limit <= 2, deeper than
+    every level <= 2), metadata on every level that can carry it."""
+    inner = "pt" if kind == "ps" else kind       # a Python set holds hashable members only: #py tuples inside
+    v = coll(inner, [J_int(31), J_int(32), J_int(33), J_int(34)], meta)
+    for d in range(depth - 1):
+        v = coll(kind if d == depth - 2 else inner, [J_int(10 * d + 1), v, J_int(10 * d + 3), ["k", None, "e"]], meta)
+    return v
+
+
+def pair_values():
+    out = []
+    inner = ["q", "v", [J_int(1), J_int(2), J_int(3)], M1]
+    for i, k1 in enumerate(ALL_KINDS):
+        for j, k2 in enumerate(ALL_KINDS):
+            if k1 in ("s", "ps") and k2 in UNHASHABLE:
+                continue
+            ns = "x" if (i + j) % 2 else None
+            mid = coll(k2, [J_int(10), inner, S("b"), ["k", None, "d"]], M2 if j % 2 else M1, ns)
+            out.append(coll(k1, [J_int(0), mid, J_int(2), ["y", None, "s", M1]], M1 if j % 2 else M2, ns))
+    # collections as map keys, maps in sets, a symbol whose metadata is deeper than the level
+    ck = [["q", "v", [J_int(1), J_int(2), J_int(3)], M1], ["q", "l", [J_int(4), J_int(5), J_int(6)], None],
+          ["q", "s", [J_int(1), J_int(2), J_int(3)], None], ["m", False, [[["k", None, "z"], J_int(1)]], M1]]
+    out.append(coll("m", [J_int(1), J_int(2), J_int(3), J_int(4)], M1, keys=ck))
+    out.append(coll("pd", [J_int(1), J_int(2), J_int(3), J_int(4)], None, keys=ck[:2] + [["q", "pt", [J_int(7), J_int(8), J_int(9)], None], S("k")]))
+    out.append(["y", "n", "sym", [[["k", None, "m"], tower("v", 3)], [["k", None, "n"], tower("m", 3)], [["k", None, "o"], J_int(1)]]])
+    out.append(["q", "s", [tower("m", 2), tower("s", 2), tower("q", 2)], M2])
+    return out
+
+
+def limit_cases(thorough, rng):
+    out = []
+    n = 0
+    for k in ALL_KINDS:
+        t = tower(k, 4 if thorough else 3)
+        for li, lim in enumerate(LIMS):
+            single = lim[0] is None or lim[1] is None
+            for via in ((0, 1) if single or thorough else (n % 2,)):
+                out.append(case(t, [True, n % 2 == 0, n % 3 == 0], via, lim))
+                n += 1
+            # no claim of readability: the abbreviated text is compared with the model's
+            if thorough or li % 3 == ALL_KINDS.index(k) % 3:
+                out.append(case(t, [False, n % 2 == 0, n % 3 == 0], n % 2, lim))
+    for i, v in enumerate(pair_values()):
+        lims = LIMS if thorough else [LIMS[(2 * i + 7 * d) % 15] for d in range(2)]
+        for lim in lims:
+            out.append(case(v, [True, n % 2 == 0, n % 4 < 2], n % 3 == 0 and 1 or 0, lim))
+            n += 1
+    for i in range(3000 if thorough else 100):
+        pc = [True, i % 2 == 0, i % 4 < 2]
+        out.append(case(gen_value(rng, rng.choice([2, 3, 3, 4]), False, pc), pc, rng.randint(0, 1), rng.choice(LIMS)))
+    return out
+
+
 def name_cases():
     out = []
     for nm in NAMES_OK + NAMES_OTHER + NAMES_BAD:
@@ -392,11 +488,11 @@ def cases(tier, rng):
     out = []
     for s in strings_upto(ALPHA, 3 if thorough else 2):
         out += both(S(s))
-    for _ in range(2000 if thorough else 150):
+    for _ in range(2000 if thorough else 120):
         out.append(case(rand_string(rng), PC0, rng.randint(0, 1)))
     out += fixed_cases(thorough)
     out += name_cases()
-    for _ in range(3000 if thorough else 150):
+    for _ in range(3000 if thorough else 120):
         out.append(case(rand_float(rng), PC0, rng.randint(0, 1)))
     for _ in range(500 if thorough else 40):
         out.append(case(rand_decimal(rng), [True, False, False], rng.randint(0, 1)))
@@ -405,9 +501,10 @@ def cases(tier, rng):
         g = math.gcd(n, d)
         if d // g > 1:
             out.append(case(["r", str(n // g), str(d // g)], PC0, rng.randint(0, 1)))
-    for i in range(12000 if thorough else 640):
+    for i in range(12000 if thorough else 480):
         pc = PCS[i % 8]
         out.append(case(gen_value(rng, rng.choice([1, 2, 2, 3, 4]), False, pc), pc, rng.randint(0, 1)))
+    out += limit_cases(thorough, rng)
     seen, uniq = set(), []
     for c in out:
         k = json.dumps(c, sort_keys=True)
@@ -512,6 +609,15 @@ def coq_pc(pc):
     return f"(PC {G.b(pc[0])} {G.b(pc[1])} {G.b(pc[2])} true)"
 
 
+def coq_lim(lim):
+    if not lim or list(lim) == [None, None]:
+        return "lim_nil"
+    length, level = lim
+    a = "None" if length is None else f"(Some ({int(length)})%N)"
+    b = "None" if level is None else f"(Some ({int(level)})%Z)"
+    return f"(PL {a} {b})"
+
+
 _TERM = re.compile(r'[\s,()\[\]{}"\\^;`~@]+')
 
 
@@ -580,7 +686,7 @@ def coq_case_with(c, v, text):
     bad = bad_patterns(text) if text else []
     o = "(@nil (str * str))" if not orc else "[" + "; ".join(f"({cstr(k)}, {cstr(r)})" for k, r in orc) + "]"
     b = "(@nil str)" if not bad else "[" + "; ".join(cstr(p) for p in bad) + "]"
-    return f"(Case {c['via']} {coq_pc(c['pc'])} {coq_value(v)} {o} {b})"
+    return f"(Case {c['via']} {coq_pc(c['pc'])} {coq_lim(c.get('lim'))} {coq_value(v)} {o} {b})"
 
 
 def coq_case(c):
@@ -618,7 +724,8 @@ def nontrivial(c, o):
 
 
 def describe(c):
-    return f"value {json.dumps(c['v'])[:300]} printed with dup/meta/nsmaps={c['pc']} via " \
+    return f"value {json.dumps(c['v'])[:300]} printed with dup/meta/nsmaps={c['pc']} " \
+           f"*print-length*/*print-level*={c.get('lim') or [None, None]} via " \
            f"{'pr-str/read-string' if c['via'] else 'obj.lrepr/reader.read_str'}"
 
 
@@ -627,7 +734,7 @@ def shrink(c):
     t = v[0]
 
     def mk(x):
-        return {"v": x, "pc": c["pc"], "via": c["via"]}
+        return case(x, c["pc"], c["via"], c.get("lim"))
     if t == "s" or t == "re" or t == "by":
         for i in range(len(v[1])):
             yield mk([t, v[1][:i] + v[1][i + 1:]])
@@ -648,16 +755,24 @@ def shrink(c):
             yield mk(["m", v[1], v[2], None])
     elif t == "y" and v[3] is not None:
         yield mk(["y", v[1], v[2], None])
-    if c["pc"] != PC0:
+    if c.get("lim"):
+        a, b = c["lim"]
+        if a is not None and b is not None:
+            yield case(v, c["pc"], c["via"], [a, None])
+            yield case(v, c["pc"], c["via"], [None, b])
+    elif c["pc"] != PC0:
         yield {"v": v, "pc": PC0, "via": c["via"]}
 
 
 def extra_evidence(cases_, outs):
-    kinds, pcs, via = {}, {}, {0: 0, 1: 0}
+    kinds, pcs, via, lims = {}, {}, {0: 0, 1: 0}, {}
     for c in cases_:
         kinds[c["v"][0]] = kinds.get(c["v"][0], 0) + 1
         pcs[str(c["pc"])] = pcs.get(str(c["pc"]), 0) + 1
         via[c["via"]] += 1
+        lk = f"dup={c['pc'][0]} length/level={c.get('lim') or [None, None]}"
+        if c.get("lim"):
+            lims[lk] = lims.get(lk, 0) + 1
     res = {"ok": 0, "read_error": 0, "print_error": 0, "no_form": 0, "other": 0}
     for o in outs:
         if not isinstance(o, dict):
@@ -672,4 +787,5 @@ def extra_evidence(cases_, outs):
             res["no_form"] += 1
         else:
             res["other"] += 1
-    return {"distribution": {"top_level_kind": kinds, "print_settings": pcs, "path": via, "implementation_result": res}}
+    return {"distribution": {"top_level_kind": kinds, "print_settings": pcs, "path": via, "print_limits": lims,
+                             "implementation_result": res}}
